@@ -274,7 +274,17 @@ func openAIListing(names []string) string {
 	return string(b)
 }
 
+// runHTTP retries when the freshly started stack does not answer as this process's Olla (another
+// process on the machine can grab the probed free port between the probe and Olla's own listen).
 func runHTTP(c *vlib.Cases, hc httpCfg, mu *sync.Mutex) {
+	for try := 0; try < 4; try++ {
+		if runHTTPOnce(c, hc, mu, try == 3) {
+			return
+		}
+	}
+}
+
+func runHTTPOnce(c *vlib.Cases, hc httpCfg, mu *sync.Mutex, last bool) bool {
 	var bes []*stack.Backend
 	var eps []stack.EP
 	for i, l := range httpListings {
@@ -302,10 +312,13 @@ func runHTTP(c *vlib.Cases, hc httpCfg, mu *sync.Mutex) {
 		cfg.Discovery.ModelDiscovery.Interval = time.Hour
 	}})
 	if err != nil {
+		if !last {
+			return false
+		}
 		mu.Lock()
 		c.Emit(map[string]any{"kind": "http", "typ": hc.Typ, "fb": hc.Fb, "rom": hc.Rom, "engine": hc.Engine, "impl": map[string]any{"start_error": err.Error()}})
 		mu.Unlock()
-		return
+		return true
 	}
 	defer s.Stop()
 	// wait until the start-up discovery (and the async unification behind it) has catalogued every listing
@@ -331,6 +344,18 @@ func runHTTP(c *vlib.Cases, hc httpCfg, mu *sync.Mutex) {
 		}
 		return ""
 	})
+	// sanity probe: a listed model must be served by one of OUR backends through OUR Olla
+	{
+		body, _ := json.Marshal(map[string]any{"model": "alpha", "messages": []map[string]string{{"role": "user", "content": "hi"}}})
+		r := stack.Do(s.Addr, stack.Request("POST", "/olla/proxy/v1/chat/completions", s.Addr, [][2]string{{"Content-Type", "application/json"}}, body, false), 5*time.Second)
+		got := 0
+		for _, b := range bes {
+			got += len(b.Taken())
+		}
+		if (got != 1 || len(r.Header[constants.HeaderXOllaEndpoint]) == 0) && !last {
+			return false
+		}
+	}
 	var listings [][]mdl
 	for _, l := range httpListings {
 		var ms []mdl
@@ -383,6 +408,7 @@ func runHTTP(c *vlib.Cases, hc httpCfg, mu *sync.Mutex) {
 			}
 		}
 	}
+	return true
 }
 
 // ------------------------------------------------------------------ main
